@@ -1123,4 +1123,90 @@ example : (match (load [⟨"a", [], [], []⟩, ⟨"b", ["a"], [], []⟩, ⟨"c",
 example : (match (load [⟨"a", [], [], []⟩, ⟨"b", ["a"], [], []⟩, ⟨"x", [], ["a"], []⟩]).bind (fun m => parseUpgradeTarget m [] "+1") with
     | .ok _ => false | .error _ => true) = true := by decide +kernel
 
+/-! ### `<branch>@+N` on an empty version table: the walk starts at the one root of that branch -/
+
+theorem ancestors_nil (m : LMap) : m.ancestors [] = [] := by
+  apply List.eq_nil_iff_forall_not_mem.mpr
+  intro x hx
+  obtain ⟨t, ht, _⟩ := (mem_ancestors_iff m [] x).mp hx
+  simp at ht
+
+theorem walkStep_up_base_label (m : LMap) (L : String) (br : Id) (hb : BranchName m L br)
+    (nxt : Option Id) (mk : Bool)
+    (h : walkStep m true (some L) none false = .ok (some (nxt, mk))) :
+    ∃ c, nxt = some c ∧ mk = false ∧ m.bases.filter (fun t => sharesLineage m t [br] false) = [c] := by
+  have hLe : L.isEmpty = false := by
+    cases hq : L.isEmpty
+    · rfl
+    · exact absurd (String.isEmpty_iff.mp hq) hb.2.1
+  have hf := filterForLineage_of_shares m m.bases L false [br] (by unfold resolveFuel; exact resolveShares_name m 9 L br hb)
+  unfold walkStep at h
+  simp only [if_true, bind, Except.bind, pure, Except.pure, hLe, Bool.false_eq_true, if_false, hf] at h
+  obtain ⟨c, hc, h1, h2⟩ := children_single h
+  exact ⟨c, h1, h2, hc⟩
+
+theorem walk_up_from_base_label (m : LMap) (L : String) (br : Id) (hb : BranchName m L br) (k : Nat) (r : Id)
+    (h : walk.go m (1 : Int) (some L) true (k + 1) none false = .ok (some (some r))) :
+    ∃ b, m.bases.filter (fun t => sharesLineage m t [br] false) = [b] ∧ PathN m.nextrev k b r := by
+  simp only [walk.go, bind, Except.bind] at h
+  have hdec : (decide ((1 : Int) > 0)) = true := by decide
+  simp only [hdec] at h
+  cases hv : walkStep m true (some L) none false with
+  | error e => simp [hv] at h
+  | ok v =>
+    simp only [hv] at h
+    cases v with
+    | none => simp [pure, Except.pure] at h
+    | some pr =>
+      obtain ⟨nxt, mk⟩ := pr
+      simp only at h
+      obtain ⟨c, h1, h2, h3⟩ := walkStep_up_base_label m L br hb nxt mk hv
+      subst h1; subst h2
+      exact ⟨c, h3, walk_up_exact m (some L) k c r h⟩
+
+/-- **`<branch>@+N` on an empty version table counts from the one root of that branch**: for every
+loaded history, every branch name that is a key of the map for revision `br`, and every target
+the pattern splits into (`<branch>`, no revision, `+N`): if `_parse_upgrade_target` answers a
+revision `i` while no row is in the table, then exactly one revision without `down_revision`
+lies on `br`'s `down_revision` lineage as written in the files (dependent roots count), and
+exactly `N-1` links lead from `i` down to it — the clause of `Spec.Rev.relUpOk` for that form. -/
+theorem rel_up_empty_label {h : Hist} {o : LoadOpts} {m : LMap} (hl : load h o = .ok m)
+    (hu : (h.map (·.id)).Nodup) (hd : ∀ r ∈ h, ∀ d ∈ r.down, d ∈ h.map (·.id))
+    (t : String) (L : String) (br : Id) (hb : BranchName m L br) (rel : Int) (i : Id)
+    (hm : matchRelative t = some (some L, none, rel)) (hpos : rel > 0)
+    (hres : parseUpgradeTarget m [] t = .ok [i]) :
+    ∃ b, (∀ x, x ∈ (basesOf h).filter (downLineage h br) ↔ x = b) ∧
+      stepsDown h (rel.natAbs - 1) i (some b) = true := by
+  have Ld := loaded_of_load hl hu hd
+  have hLe : L.isEmpty = false := by
+    cases hq : L.isEmpty
+    · rfl
+    · exact absurd (String.isEmpty_iff.mp hq) hb.2.1
+  have hsh : resolveShares m resolveFuel L = .ok [br] := by unfold resolveFuel; exact resolveShares_name m 9 L br hb
+  obtain ⟨k, hk⟩ : ∃ k, rel.natAbs = k + 1 := ⟨rel.natAbs - 1, by omega⟩
+  unfold parseUpgradeTarget at hres
+  simp only [hm, hpos, if_true, bind, Except.bind, pure, Except.pure, hLe, Bool.false_eq_true, if_false,
+    getRevisionsMany, List.mapM_nil, List.flatten_nil, List.filterMap_nil,
+    filterForLineage_of_shares m [] L false [br] hsh, List.filter_nil, List.isEmpty_nil, Bool.not_true,
+    ancestors_nil, List.reverse_nil, List.flatMap_nil, dedupe] at hres
+  unfold walk at hres
+  rw [walk_go_pos m rel hpos, hk] at hres
+  cases hw : walk.go m (1 : Int) (some L) true (k + 1) none false with
+  | error e => simp [hw] at hres
+  | ok w =>
+    simp only [hw] at hres
+    have := up_result hres
+    subst this
+    obtain ⟨b, hbs, hp⟩ := walk_up_from_base_label m L br hb k i hw
+    refine ⟨b, ?_, ?_⟩
+    · intro x
+      have hB := (C15.heads_bases_history hl hu hd).2.2.1
+      have : x ∈ m.bases.filter (fun t => sharesLineage m t [br] false) ↔ x = b := by rw [hbs]; simp
+      rw [← this]
+      simp only [List.mem_filter, hB x, sharesLineage_history hl hu hd x br]
+    · have hrev : PathN m.downOf k i b :=
+        pathN_reverse (fun a c hc => ((nextrev_iff m Ld.ids_nodup a c).mp hc).2) k b i hp
+      rw [hk]
+      exact (stepsDown_iff h k i b).mpr (pathN_congr (fun j => downOf_eq_downParents hl hu j) k i b hrev)
+
 end C16
